@@ -166,7 +166,12 @@ def family_db_views(seed):
     S, F, C = ["snapshot"], ["flush"], ["compact"]
     B = lambda *kv: ["batch"] + [a(x) if x != "!" else "!" for x in kv]
     R = lambda mode: ["reopen", mode]
+    I, IP = ["pin"], ["pin", "positioned"]
     fam = []
+    # iterators created before flushes / compactions / deletions of the files they pin, read at the end
+    fam.append([P("apple", "1"), F, C, P("xylophone", "1"), F, C, P("fig", "1"), F, C, P("mango", "1"), F, C, I, IP,
+                P("apple", "2"), D("fig"), P("zebra", "1"), F, C, P("mango", "3"), F, C])
+    fam.append([P("a", "1"), P("b", "1"), F, I, D("a"), P("c", "1"), F, IP, C, P("b", "2"), F, C, I, D("c"), F, C])
     # recovery: a multi-operation batch is the last WAL record, then the same keys are rewritten
     fam.append([B("a", "a1", "b", "b1", "c", "c1"), R("reuse"), P("b", "b2"), P("c", "c2"), D("a"), R("fresh"), P("a", "a3")])
     fam.append([B("a", "a1", "b", "b1", "c", "c1"), R("reuse"), P("c", "c2")])
@@ -203,7 +208,7 @@ def family_db_views(seed):
             elif r < 14:
                 ops.append(B(k, "b%d" % i, keys[rnd(len(keys) - 1)], "!", keys[rnd(len(keys) - 1)], "c%d" % i) if h_ % 2 else R("reuse" if i % 2 else "fresh"))
             elif r < 16:
-                ops.append(S)
+                ops.append(S if rnd(3) else (I if rnd(2) else IP))
             elif r < 19:
                 ops.append(F)
             else:
